@@ -1387,7 +1387,7 @@ func main() {
 	r := rec.NewRand(o.Seed*0x9e3779b97f4a7c15 + 26)
 	for i := 0; i < o.N; i++ {
 		backend := "memory"
-		if i%6 == 5 {
+		if i%4 == 3 {
 			backend = "sqlite"
 		}
 		runScenario(wr, r.Uint64(), backend)
